@@ -66,7 +66,49 @@ def R_impact(ctx, lib):
         roles, defs = flow.closure_roles(b)
         folds = [r for r in roles.values() if r.adaptor == "fold"]
         if len(folds) != 1:
-            ctx.cannot(rule, name + ".fold", "exactly one fold", b.where(), [r.adaptor for r in roles.values()])
+            # the other usual spelling of a count: <range>.filter(<membership test>).count()
+            filt = [r for r in roles.values() if r.adaptor == "filter"]
+            ret = defs.expr_local(0)
+            if len(filt) == 1 and ret[0] == "call" and flow.last(ret[2]) == "count" and ret[3] and ret[3][0] == filt[0].call:
+                r = filt[0]
+                src, steps = r.receiver_chain()
+                if name == "passive_var_impact":
+                    ok = src == ("param", 3) and [s_[0] for s_ in steps] == ["iter"]
+                    ctx.ob(rule, name + ".range", ok, where=b.where(), expected="termlist.iter()", found="%s %s" % (flow.show(src), [s_[0] for s_ in steps]))
+                else:
+                    rcv = r.receiver
+                    ok = (rcv[0] == "adt" and rcv[1].endswith("ops::Range") and flow.const_val(dict(rcv[3])["start"]) == 0
+                          and dict(rcv[3])["end"][0] == "call" and flow.last(dict(rcv[3])["end"][2]) == "len" and dict(rcv[3])["end"][3][0] == ("param", 3))
+                    ctx.ob(rule, name + ".range", ok, where=b.where(), expected="0..termlist.len()", found=flow.show(rcv)[:160])
+                cb = lib.body(r.closure_def)
+                eng = ctx.engine([lib], no_inline={"adf_bdd::obdd::Bdd::var_dependencies"})
+                st = symx.State()
+                env = eng.closure_env(st, cb, cap_values(r))
+                if name == "passive_var_impact":
+                    ITEM = shared.term_sym("item")
+                    arg = shared.ref_to(st, shared.ref_to(st, ITEM))
+                else:
+                    ITEM = ("sym", "idx")
+                    arg = shared.ref_to(st, ITEM)
+                good = False
+                found = []
+                for p in eng.summarise(cb, [env, arg], st):
+                    if p.end != "return":
+                        continue
+                    e = deep_strip(p.ret)
+                    found.append(symx.show(e)[:160])
+                    if is_call(e, "HashSet::contains"):
+                        sset, elem = e[2][0], strip(e[2][1])
+                        vd = symx.find_all(sset, lambda n_: is_call(n_, "Bdd::var_dependencies"))
+                        if name == "passive_var_impact":
+                            good = len(vd) == 1 and strip(vd[0][2][-1]) == ITEM and elem == ("sym", "P2")
+                        else:
+                            a_ = deep_strip(vd[0][2][-1]) if len(vd) == 1 else None
+                            good = (a_ is not None and a_[0] == "index" and strip(a_[1]) == ("sym", "P3") and deep_strip(a_[2]) in (("field", ("sym", "P2"), "0"), ("sym", "P2"))
+                                    and elem == shared.var_of(ITEM))
+                ctx.ob(rule, name + ".membership", good, where=cb.where(), expected="filter(|x| membership test).count()", found=found[:2])
+                continue
+            ctx.cannot(rule, name + ".fold", "exactly one fold, or filter(..).count()", b.where(), [r.adaptor for r in roles.values()])
             continue
         r = folds[0]
         ret = defs.expr_local(0)
